@@ -883,17 +883,33 @@ func nullKeyTwin(r *gen.Rng, v interface{}) interface{} {
 		for k, x := range t {
 			out[k] = x
 		}
+		// the lists that hold maps, in random order; in the chosen item a field that is a key of the
+		// generated keyed lists is set to null (for the list with defaulted keys: `proto` or `port`)
+		var lists []string
 		for _, k := range keys {
-			if l, ok := t[k].([]interface{}); ok && len(l) > 0 && r.Chance(60) {
-				if item, ok := l[r.Intn(len(l))].(map[string]interface{}); ok {
-					twin := map[string]interface{}{}
-					for kk, x := range item {
-						twin[kk] = x
-					}
-					twin[gen.Pick(r, []string{"proto", "proto", "name", "id", "port"})] = nil
-					out[k] = append(append([]interface{}{}, l...), twin)
-					return out
+			if l, ok := t[k].([]interface{}); ok && len(l) > 0 {
+				if _, isMap := l[0].(map[string]interface{}); isMap {
+					lists = append(lists, k)
 				}
+			}
+		}
+		if len(lists) > 0 && r.Chance(85) {
+			k := gen.Pick(r, lists)
+			l := t[k].([]interface{})
+			if item, ok := l[r.Intn(len(l))].(map[string]interface{}); ok {
+				twin := map[string]interface{}{}
+				for kk, x := range item {
+					twin[kk] = x
+				}
+				cands := []string{"name"}
+				if _, has := item["port"]; has {
+					cands = []string{"proto", "proto", "port"}
+				} else if _, has := item["id"]; has {
+					cands = []string{"id", "name"}
+				}
+				twin[gen.Pick(r, cands)] = nil
+				out[k] = append(append([]interface{}{}, l...), twin)
+				return out
 			}
 		}
 		for _, k := range keys {
